@@ -28,7 +28,7 @@ type c15Q map[string]bool
 
 var c15Quirks = map[string][]string{
 	"rename_object":     {"rename_object/from-differs-in-case", "rename_object/refs-outside-visitor-positions", "rename_object/collision-overwrites"},
-	"add_object":        {"add_object/overwrites-existing"},
+	"add_object":        {"add_object/overwrites-existing", "seq/as-value-shared"},
 	"duplicate_object":  {"duplicate_object/source-exact-match", "duplicate_object/overwrites-existing"},
 	"retype_object":     {"seq/as-value-shared"},
 	"add_fields":        {"seq/as-value-shared"},
@@ -488,11 +488,15 @@ func c15SpecStep(st *c15Step, ss ast.Schemas, q c15Q, touched map[string]bool) s
 		})
 	case "add_object":
 		pkg, obj, _ := c15ObjRef(st.S["object"])
+		sharedAs := c15CloneType(*st.As, true)
 		for _, s := range ss {
 			if s.Package != pkg {
 				continue
 			}
 			n := ast.Object{Name: obj, Comments: append([]string(nil), st.Comments...), Type: c15CloneType(*st.As, true), SelfRef: ast.RefType{ReferredPkg: pkg, ReferredType: obj}}
+			if q["seq/as-value-shared"] {
+				n.Type = sharedAs // several schemas of the same package get the very same Type value
+			}
 			touch(n)
 			if s.Objects.Has(obj) && !q["add_object/overwrites-existing"] {
 				status = "conflict"
